@@ -1720,6 +1720,111 @@ func excludedByTypeTest(v ssa.Value, at *ssa.BasicBlock, uncomparable []types.Ty
 	return false
 }
 
+// every-iteration: `//@ func F / every-iteration <n> mapupdate|call:<name> [or …]` - every path once round loop n (from its
+// header back to its header) passes an instruction of one of the named kinds: a map update, or a call of <name>
+// (`append` for the built-in). Decided on the control-flow graph: with the blocks that contain such an instruction taken
+// out of the loop body, no back edge of the loop may still be reachable from the header. This is how "every predicate of a
+// loaded text either extends a multifile predicate or becomes the definition" is pinned for the commit loop of
+// VM.Compile, whose loop variables cannot be named on the back edges of a range over a map.
+func init() { structuralChecks = append(structuralChecks, checkEveryIteration) }
+
+func checkEveryIteration(P *Program, prop string) []StructResult {
+	var out []StructResult
+	for _, key := range P.FuncOrd {
+		d := P.Funcs[key]
+		if !hasProp(d.Props(), prop) {
+			continue
+		}
+		for _, c := range d.Get("every-iteration") {
+			f := strings.Fields(c.Text)
+			res := StructResult{Name: key + ":every-iteration:" + strings.Join(f, "-"), OK: true}
+			fn := P.fnByKey[key]
+			if fn == nil || len(f) < 2 {
+				res.OK, res.Detail = false, "no such function, or clause malformed"
+				out = append(out, res)
+				continue
+			}
+			n, _ := strconv.Atoi(f[0])
+			var kinds []string
+			for _, k := range f[1:] {
+				if k != "or" {
+					kinds = append(kinds, k)
+				}
+			}
+			matches := func(in ssa.Instruction) bool {
+				for _, k := range kinds {
+					switch {
+					case k == "mapupdate":
+						if _, ok := in.(*ssa.MapUpdate); ok {
+							return true
+						}
+					case strings.HasPrefix(k, "call:"):
+						if ci, ok := in.(ssa.CallInstruction); ok {
+							want := strings.TrimPrefix(k, "call:")
+							if bi, ok := ci.Common().Value.(*ssa.Builtin); ok && bi.Name() == want {
+								return true
+							}
+							if callee := ci.Common().StaticCallee(); callee != nil && (fnKey(callee) == want || shortKey(fnKey(callee)) == want || strings.HasSuffix(fnKey(callee), "."+want)) {
+								return true
+							}
+						}
+					}
+				}
+				return false
+			}
+			var li *loopInfo
+			for _, l := range findLoops(fn) {
+				if l.ordinal == n {
+					li = l
+				}
+			}
+			if li == nil {
+				res.OK, res.Detail = false, fmt.Sprintf("the function has no loop %d", n)
+				out = append(out, res)
+				continue
+			}
+			blocked := map[*ssa.BasicBlock]bool{}
+			for b := range li.body {
+				for _, in := range b.Instrs {
+					if matches(in) {
+						blocked[b] = true
+					}
+				}
+			}
+			// search from the header through unblocked body blocks; reaching the header again is a path without the instruction
+			seen := map[*ssa.BasicBlock]bool{}
+			var bad *ssa.BasicBlock
+			var dfs func(b *ssa.BasicBlock)
+			dfs = func(b *ssa.BasicBlock) {
+				if bad != nil || seen[b] || blocked[b] || !li.body[b] {
+					return
+				}
+				seen[b] = true
+				for _, s := range b.Succs {
+					if s == li.header {
+						bad = b
+						return
+					}
+					dfs(s)
+				}
+			}
+			if blocked[li.header] {
+				res.Detail = "the loop header itself contains the instruction"
+			} else {
+				dfs(li.header)
+				if bad != nil {
+					res.OK = false
+					res.Detail = fmt.Sprintf("an iteration of loop %d can go round again without %s (back edge from the block at %s)", n, strings.Join(kinds, " or "), posOf(fn, blockPos(bad)))
+				} else {
+					res.Detail = fmt.Sprintf("every path round loop %d passes %s", n, strings.Join(kinds, " or "))
+				}
+			}
+			out = append(out, res)
+		}
+	}
+	return out
+}
+
 func init() { structuralChecks = append(structuralChecks, checkTerminates) }
 
 func checkTerminates(P *Program, prop string) []StructResult {
